@@ -567,6 +567,9 @@ def run_sequence_asgi(kind, chunks, seq, disc_at):
     from baize.asgi import Request
 
     areq = make_req(kind, chunks)
+    bare = disc_at == "bare"  # the server leaves out the keys whose values are the defaults ("body": b"", "more_body": False are optional)
+    if bare:
+        disc_at = None
     late = disc_at == "late"  # the body has not begun to arrive when the application first looks: the first message comes a moment later
     if late:
         disc_at = None
@@ -576,6 +579,8 @@ def run_sequence_asgi(kind, chunks, seq, disc_at):
         disc_at = int(disc_at.split("+")[0])
         areq.headers = list(areq.headers) + [("Content-Length", str(sum(len(c) for c in chunks[:disc_at])))]
     msgs = SV.to_messages(areq, disconnect_at=disc_at)
+    if bare:
+        msgs = [{k: v for k, v in m.items() if not (k == "body" and v == b"") and not (k == "more_body" and v is False)} for m in msgs]
     state = {"i": 0, "extra": 0, "gone": False, "polling": False}
     problems = []
     results = []
@@ -1004,6 +1009,7 @@ def run_shard(desc, tier):
             # the whole body in the first message, but the final (empty) message still to come - or never coming
             variants += [([B, b""], None), ([B, b""], 1)]
             variants += [(base, "late")]
+            variants += [([B, b""], "bare"), (base, "bare"), ([B[:1], b"", B[1:], b""], "bare")]
         for chunks, disc_at in variants:
             for n in range(1, DEPTH[tier] + 1):
                 for seq in itertools.product(ACCESSES + ["obtain", "drain"] + (["poll"] if iface == "asgi" else []), repeat=n):
